@@ -361,4 +361,140 @@ theorem repay_binv {c : Cx} {R : Acct → Asset → Int} {s : Asset} : (r : Part
       have h2 := repay_binv ps _ _ hg' h1
       exact h2.congr (fun x A => by rw [flOf_cons s p ps]; omega)
 
+/-! ### `credit` and `emit` -/
+
+theorem Bal.ext' {b b' : Bal} (h : ∀ x A, b.get x A = b'.get x A) : b = b' := by
+  cases b with | mk g => cases b' with | mk g' =>
+  have : g = g' := funext (fun x => funext (fun A => h x A))
+  rw [this]
+
+theorem dom_credit {c : Cx} {b : Bal} (hd : ∀ x A, (b.get x A).isSome ↔ c.K x A) (d : Acct) (A : Asset) (f : Parts) :
+    ∀ x A', ((credit b d A f).get x A').isSome ↔ c.K x A' := by
+  unfold credit
+  by_cases hw : d = "world"
+  · simp only [hw, if_true]; exact hd
+  · simp only [hw, if_false]
+    cases hg : b.get d A with
+    | none => exact hd
+    | some t => exact dom_upd hd ((hd d A).mp (by rw [hg]; rfl)) _
+
+/-- a tracked entry of an account other than `world` after a credit -/
+theorem credit_get_tracked (b : Bal) (d : Acct) (A : Asset) (f : Parts) {x : Acct} {A' : Asset} (hxw : x ≠ "world")
+    {t : Int} (hb : b.get x A' = some t) :
+    (credit b d A f).get x A' = some (t + (if d = x ∧ A = A' then total f else 0)) := by
+  unfold credit
+  by_cases hw : d = "world"
+  · have hne : ¬ (d = x ∧ A = A') := fun e => hxw (e.1 ▸ hw)
+    rw [if_pos hw, if_neg hne, hb]; simp
+  · simp only [hw, if_false]
+    cases hg : b.get d A with
+    | none =>
+      have hne : ¬ (d = x ∧ A = A') := by
+        intro e; obtain ⟨rfl, rfl⟩ := e; rw [hg] at hb; cases hb
+      simp only [hne, if_false, hb]; simp
+    | some t0 =>
+      simp only [upd_get]
+      by_cases hx : x = d ∧ A' = A
+      · obtain ⟨rfl, rfl⟩ := hx
+        rw [hg] at hb; cases hb
+        simp
+      · have hne : ¬ (d = x ∧ A = A') := fun e => hx ⟨e.1.symm, e.2.symm⟩
+        simp only [hx, hne, if_false, hb]; simp
+
+theorem credit_cons (b : Bal) (d : Acct) (A : Asset) (p : Part) (ps : Parts) :
+    credit (credit b d A [p]) d A ps = credit b d A (p :: ps) := by
+  unfold credit
+  by_cases hw : d = "world"
+  · simp only [hw, if_true]
+  · simp only [hw, if_false]
+    cases hg : b.get d A with
+    | none => simp only [hg]
+    | some t =>
+      simp only [upd_get, and_self, if_true]
+      apply Bal.ext'
+      intro x A'
+      simp only [upd_get]
+      by_cases hx : x = d ∧ A' = A
+      · simp only [hx, and_self, if_true, total_cons, total_nil]
+        congr 1; omega
+      · simp only [hx, if_false]
+
+/-- the posting `OP_SEND` writes for one part -/
+def post (d : Acct) (A : Asset) (p : Part) : Posting := ⟨p.acct, d, p.amt, A⟩
+
+theorem emit_cons (d : Acct) (A : Asset) (p : Part) (ps : Parts) (st : St) :
+    emit d ⟨A, p :: ps⟩ st = emit d ⟨A, ps⟩ ⟨credit st.bal d A [p], st.postings ++ [post d A p]⟩ := by
+  simp only [emit, credit_cons, List.map_cons, List.append_assoc, List.singleton_append, post]
+
+theorem emit_nil (d : Acct) (A : Asset) (st : St) (hd : True) : (emit d ⟨A, []⟩ st).postings = st.postings := by
+  simp [emit]
+
+/-- the invariant of the interpreter state during destinations: the postings emitted so far respect the floor,
+and the tracked balances are consistent with the real balances they induce -/
+def DInv (c : Cx) (bal0 : Acct → Asset → Int) (st : St) (fl : Acct → Asset → Int) : Prop :=
+  FloorOK c.g bal0 st.postings ∧ BInv c (realBal bal0 st.postings) st.bal fl
+
+theorem DInv.congr {c : Cx} {bal0 : Acct → Asset → Int} {st : St} {fl fl' : Acct → Asset → Int}
+    (h : ∀ x A, fl x A = fl' x A) (hi : DInv c bal0 st fl) : DInv c bal0 st fl' := ⟨hi.1, hi.2.congr h⟩
+
+/-- **`emit_floor`** for one part: the posting respects the floor of its source because that much of the
+account is in flight and everything else in flight is non-negative; afterwards the part has left the flight -/
+theorem emit1_dinv {c : Cx} {bal0 : Acct → Asset → Int} {st : St} {fl : Acct → Asset → Int} {d : Acct} {A : Asset}
+    {p : Part} (hi : DInv c bal0 st fl) (hp : 0 ≤ p.amt) (hK : c.K p.acct A)
+    (hrest : ∀ x A', flOf ⟨A, [p]⟩ x A' ≤ fl x A') :
+    DInv c bal0 ⟨credit st.bal d A [p], st.postings ++ [post d A p]⟩ (fun x A' => fl x A' - flOf ⟨A, [p]⟩ x A') := by
+  obtain ⟨hf, hb⟩ := hi
+  refine ⟨?_, dom_credit hb.1 d A [p], ?_⟩
+  · show FloorOK c.g bal0 (st.postings ++ [post d A p])
+    rw [FloorOK_append]
+    refine ⟨hf, ?_, trivial⟩
+    intro hxw gv hgv
+    simp only [post] at hxw hgv ⊢
+    obtain ⟨t, ht⟩ := hb.tracked hK
+    obtain ⟨_, he, hd⟩ := hb.2 p.acct A hxw gv hgv t ht
+    have h1 := hrest p.acct A
+    rw [flOf_single] at h1
+    simp only [and_self, if_true] at h1
+    omega
+  · intro x A' hxw gv hgv t' ht'
+    show _ ∧ realBal bal0 (st.postings ++ [post d A p]) x A' = _ ∧ _
+    dsimp only at ht' ⊢
+    obtain ⟨t, ht⟩ := hb.tracked ((dom_credit hb.1 d A [p] x A').mp (by rw [ht']; rfl))
+    rw [credit_get_tracked st.bal d A [p] hxw ht] at ht'
+    simp only [Option.some.injEq, total_cons, total_nil, Int.add_zero] at ht'
+    obtain ⟨hs, he, hd⟩ := hb.2 x A' hxw gv hgv t ht
+    rw [realBal_append, flOf_single]
+    simp only [realBal, applyPosting, post]
+    by_cases h1 : d = x ∧ A = A' <;> by_cases h2 : p.acct = x ∧ A = A' <;>
+      simp only [h1, h2, if_true, if_false] at ht' ⊢ <;> exact ⟨hs, by omega, by omega⟩
+
+/-- **`emit_floor`**: `OP_SEND` of a whole funding -/
+theorem emit_dinv {c : Cx} {bal0 : Acct → Asset → Int} {d : Acct} {A : Asset} : (ps : Parts) → (st : St) →
+    (fl : Acct → Asset → Int) → DInv c bal0 st fl → Good c ⟨A, ps⟩ → (∀ x A', flOf ⟨A, ps⟩ x A' ≤ fl x A') →
+    DInv c bal0 (emit d ⟨A, ps⟩ st) (fun x A' => fl x A' - flOf ⟨A, ps⟩ x A')
+  | [], st, fl, hi, _, _ => by
+    have : emit d ⟨A, []⟩ st = ⟨credit st.bal d A [], st.postings⟩ := by simp [emit]
+    rw [this]
+    refine ⟨hi.1, dom_credit hi.2.1 d A [], ?_⟩
+    intro x A' hxw gv hgv t' ht'
+    dsimp only at ht' ⊢
+    obtain ⟨t, ht⟩ := hi.2.tracked ((dom_credit hi.2.1 d A [] x A').mp (by rw [ht']; rfl))
+    rw [credit_get_tracked st.bal d A [] hxw ht] at ht'
+    simp only [total_nil, ite_self, Int.add_zero, Option.some.injEq] at ht'
+    subst ht'
+    rw [flOf_nil]
+    have := hi.2.2 x A' hxw gv hgv t ht
+    simpa using this
+  | p :: ps, st, fl, hi, hg, hrest => by
+    have hg' : Good c ⟨A, ps⟩ := ⟨hg.1.tail, hg.2.tail⟩
+    have hnn : ∀ x A', 0 ≤ flOf ⟨A, ps⟩ x A' := fun x A' => flOf_nonneg (f := ⟨A, ps⟩) hg'.1 x A'
+    have hnn1 : ∀ x A', 0 ≤ flOf ⟨A, [p]⟩ x A' :=
+      fun x A' => flOf_nonneg (f := ⟨A, [p]⟩) (nonNeg_single hg.1.head) x A'
+    have h1 := emit1_dinv (d := d) (A := A) hi hg.1.head hg.2.head (fun x A' => by
+      have := hrest x A'; rw [flOf_cons] at this; have := hnn x A'; omega)
+    have h2 := emit_dinv (d := d) ps _ _ h1 hg' (fun x A' => by
+      have := hrest x A'; rw [flOf_cons] at this; omega)
+    rw [emit_cons]
+    exact h2.congr (fun x A' => by rw [flOf_cons A p ps]; omega)
+
 end Num
